@@ -303,7 +303,10 @@ impl RuntimeData {
             if let Value::Object(mut t) = val {
                 unsafe {
                     let t = t.as_mut();
-                    t.marker = GcMarker::Gray;
+                    // a guard outlives the collection: its mark must not be lost
+                    if !matches!(t.marker, GcMarker::Protected) {
+                        t.marker = GcMarker::Gray;
+                    }
                     progress_tracker.push(t);
                 }
             }
@@ -313,7 +316,10 @@ impl RuntimeData {
             if let Value::Object(mut t) = val {
                 unsafe {
                     let t = t.as_mut();
-                    t.marker = GcMarker::Gray;
+                    // a guard outlives the collection: its mark must not be lost
+                    if !matches!(t.marker, GcMarker::Protected) {
+                        t.marker = GcMarker::Gray;
+                    }
                     progress_tracker.push(t);
                 }
             }
@@ -336,7 +342,9 @@ impl RuntimeData {
                         let t = obj.as_mut();
                         if let CaoLangObjectBody::Closure(c) = &t.body {
                             if std::ptr::eq(c, frame.closure) {
-                                t.marker = GcMarker::Gray;
+                                if !matches!(t.marker, GcMarker::Protected) {
+                                    t.marker = GcMarker::Gray;
+                                }
                                 progress_tracker.push(t);
                             }
                         }
